@@ -35,6 +35,19 @@ fn sched_point(name: &str) {
 #[inline(always)]
 fn sched_point(_name: &str) {}
 
+/// Path of the lock file this process currently holds, so that an exit path that cannot run
+/// destructors (`process::exit` from the signal handler thread) can still release it
+static HELD_LOCK: std::sync::Mutex<Option<PathBuf>> = std::sync::Mutex::new(None);
+
+/// Remove the lock file held by this process, if any. For exit paths that skip `Drop`.
+pub fn release_held_lock_for_exit() {
+    if let Ok(mut held) = HELD_LOCK.lock() {
+        if let Some(path) = held.take() {
+            let _ = fs::remove_file(path);
+        }
+    }
+}
+
 #[derive(Debug)]
 pub struct LockFile {
     path: PathBuf,
@@ -134,6 +147,10 @@ impl LockFile {
             },
         }
 
+        if let Ok(mut held) = HELD_LOCK.lock() {
+            *held = Some(lock_path.clone());
+        }
+
         Ok(Self {
             path: lock_path,
             pid,
@@ -163,6 +180,9 @@ impl LockFile {
 impl Drop for LockFile {
     fn drop(&mut self) {
         // Best effort cleanup on drop
+        if let Ok(mut held) = HELD_LOCK.lock() {
+            *held = None;
+        }
         sched_point("drop_exists");
         if self.path.exists() {
             sched_point("drop_remove");
